@@ -26,7 +26,7 @@ ASSUMPTIONS = [
     "non-termination is approximated by a 10 s wall-clock guard per byte string (normal decode time << 1 ms), confirmed with 30 s before it is reported",
     "truncation clause only for descriptions without dynamic-length objects; 'value-carrying' = bits claimed by a parameter in the reference's used mask",
 ]
-MUST_HIT = ["prefix", "mutation", "short", "random", "overlong", "entry:obj", "entry:layer", "entry:service",
+MUST_HIT = ["layer-case", "prefix", "mutation", "short", "random", "overlong", "entry:obj", "entry:layer", "entry:service",
             "entry:decode_response", "regime:error", "regime:default", "outcome:DecodeError", "outcome:returned",
             "truncation-clause", "somersault"]
 DYNAMIC = {"dct:minmax", "dct:leading", "dct:paramlen", "dlfield", "eopf", "mux", "emfield", "table"}
@@ -177,6 +177,126 @@ def replay(case) -> list:
 
 
 # ---------------------------------------------------------------------------
+# layers with several services, negative and global negative responses
+# ---------------------------------------------------------------------------
+def layer_case_strategy():
+    from hypothesis import strategies as st
+    u8 = {"t": "std", "bt": "A_UINT32", "bl": 8, "enc": None, "hl": None}
+
+    def dop(i, compu=None, pt="A_UINT32"):
+        return {"k": "simple", "id": i, "dct": dict(u8), "compu": compu or {"c": "IDENTICAL"}, "pt": pt}
+
+    @st.composite
+    def s(draw):
+        nsvc = draw(st.integers(1, 3))
+        sids = draw(st.lists(st.integers(0x10, 0x3E), min_size=nsvc, max_size=nsvc, unique=True))
+        msgs = []
+        for i, sid in enumerate(sids):
+            msgs.append({"kind": "request", "id": f"rq{i}", "params": [
+                {"pk": "const", "name": "sid", "pos": 0, "bit": 0, "dct": dict(u8), "v": sid},
+                {"pk": "value", "name": "arg", "pos": 1, "bit": 0, "dop": dop(f"da{i}"), "default": None}]})
+        for i, sid in enumerate(sids):
+            msgs.append({"kind": "response", "rtype": "POS-RESPONSE", "id": f"pr{i}", "svc": i, "params": [
+                {"pk": "const", "name": "sid", "pos": 0, "bit": 0, "dct": dict(u8), "v": sid + 0x40},
+                {"pk": "matchreq", "name": "echo", "pos": 1, "rpos": 1, "n": 1},
+                {"pk": "value", "name": "res", "pos": 2, "bit": 0, "dop": dop(f"dr{i}"), "default": None}]})
+            if draw(st.booleans()):
+                vals = sorted(draw(st.sets(st.sampled_from([0x00, 0x11, 0x22, 0x31]), min_size=1, max_size=3)))
+                msgs.append({"kind": "response", "rtype": "NEG-RESPONSE", "id": f"nr{i}", "svc": i, "params": [
+                    {"pk": "const", "name": "sid", "pos": 0, "bit": 0, "dct": dict(u8), "v": 0x7F},
+                    {"pk": "matchreq", "name": "rqsid", "pos": 1, "rpos": 0, "n": 1},
+                    {"pk": "nrc", "name": "nrc", "pos": 2, "bit": 0, "dct": dict(u8), "vals": vals},
+                    {"pk": "value", "name": "code", "pos": 2, "bit": 0, "dop": dop(f"dn{i}"), "default": None}]})
+        ngnr = draw(st.integers(1, 2))
+        for g in range(ngnr):
+            rows = [[c, c, f"nrc{c}"] for c in sorted(draw(st.sets(st.sampled_from([0x10, 0x11, 0x12, 0x22, 0x78]), min_size=1, max_size=3)))]
+            params = [
+                {"pk": "const", "name": "sid", "pos": 0, "bit": 0, "dct": dict(u8), "v": 0x7F},
+                {"pk": "matchreq", "name": "rqsid", "pos": 1, "rpos": 0, "n": 1},
+                {"pk": "value", "name": "code", "pos": 2, "bit": 0, "default": None,
+                 "dop": dop(f"dg{g}", {"c": "TEXTTABLE", "rows": rows}, "A_UNICODE2STRING")}]
+            if g == 1 or draw(st.booleans()):
+                params.append({"pk": "value", "name": "extra", "pos": 3, "bit": 0, "dop": dop(f"dx{g}"), "default": None})
+            msgs.append({"kind": "response", "rtype": "GLOBAL-NEG-RESPONSE", "id": f"gnr{g}", "params": params})
+        rnd = draw(st.lists(st.binary(min_size=0, max_size=6), min_size=1, max_size=4))
+        return {"layer": True, "msgs": msgs, "sids": sids, "random": rnd}
+    return s()
+
+
+def eval_layer_case(case, res: core.ShardResult | None = None, kf=None) -> list:
+    """every own PDU of every coding object, its prefixes and single-byte mutations, and short strings, through
+    DiagLayer.decode and DiagLayer.decode_response"""
+    from odxtools.exceptions import DecodeError
+    from vlib import emit
+    case = mh.norm_case(case)
+    signal.signal(signal.SIGALRM, _alarm)
+    db, layer, objs = emit.load_messages(case["msgs"])
+    sids = case["sids"]
+    pdus = []
+    for m in case["msgs"]:
+        if m["kind"] == "request":
+            pdus.append(bytes([m["params"][0]["v"], 0x05]))
+    rq_pdus = list(pdus)
+    for sid in sids:
+        rq = bytes([sid, 0x05])
+        pdus += [bytes([sid + 0x40, 0x05, 0x09]), bytes([0x7F, sid, 0x11]), bytes([0x7F, sid, 0x00]), bytes([0x7F, sid, 0x22, 0x01]),
+                 bytes([0x7F, sid, 0x33]), bytes([0x7F, sid])]
+    if "data" in case and isinstance(case["data"], str):
+        strings = [("replay", bytes.fromhex(case["data"]))]
+    else:
+        strings = []
+        for p in pdus:
+            for i in range(len(p) + 1):
+                strings.append(("prefix", p[:i]))
+            for i in range(len(p)):
+                for op in (0x01, 0x80, 0xFF):
+                    strings.append(("mutation", p[:i] + bytes([p[i] ^ op]) + p[i + 1:]))
+            strings.append(("overlong", p + b"\x00\x01"))
+        for r in case.get("random", []):
+            strings.append(("random", bytes(r)))
+    fails, seen = [], set()
+    for kind, data in strings:
+        for regime in ("default", "error"):
+            entries = [("layer", lambda: layer.decode(data))]
+            for rq in rq_pdus:
+                entries.append(("decode_response", lambda rq=rq: layer.decode_response(data, rq)))
+            for name, fn in entries:
+                cls = {kind, "regime:" + regime, "entry:" + name, "layer-case"}
+                f = None
+                with warnings.catch_warnings(record=True):
+                    if regime == "error":
+                        warnings.simplefilter("ignore")
+                        warnings.simplefilter("error", DecodeError)
+                    else:
+                        warnings.simplefilter("always")
+                    signal.setitimer(signal.ITIMER_REAL, 10.0)
+                    try:
+                        fn()
+                        cls.add("outcome:returned")
+                    except DecodeError:
+                        cls.add("outcome:DecodeError")
+                    except _Timeout:
+                        f = _fail("non-termination", f"{name}({data.hex()})", dict(case, data=data.hex()), {"entry": name})
+                    except Exception as e:
+                        f = _fail("foreign-exception", f"layer case: {name}({data.hex()}) [{regime}] raised {type(e).__name__}: {e}",
+                                  dict(case, data=data.hex(), regime=regime), {"exc": mh.exc_key(e), "entry": name})
+                    finally:
+                        signal.setitimer(signal.ITIMER_REAL, 0)
+                if res is not None:
+                    res.note({"layer_case": len(case["msgs"]), "data": data.hex(), "kind": kind}, True, cls,
+                             sample=(len(res.samples) < 2), dig={"m": case["msgs"], "d": data.hex(), "r": regime, "e": name})
+                if f is not None:
+                    k = known.match(kf, f) if kf is not None else None
+                    if k is not None:
+                        if res is not None:
+                            res.known_hits[k["id"]] += 1
+                    elif f.bucket() not in seen:
+                        seen.add(f.bucket())
+                        fails.append(f)
+    return fails
+
+
+# ---------------------------------------------------------------------------
 # the shipped example database
 # ---------------------------------------------------------------------------
 def run_somersault(spec, seed, tier) -> core.ShardResult:
@@ -284,6 +404,8 @@ _replay_generated = replay
 def replay(case) -> list:  # noqa: F811
     if "somersault" in case:
         return replay_somersault(case)
+    if case.get("layer"):
+        return eval_layer_case(case)
     return _replay_generated(case)
 
 
@@ -291,7 +413,7 @@ def replay(case) -> list:  # noqa: F811
 # shards
 # ---------------------------------------------------------------------------
 def shards(tier):
-    out = [("hyp", i) for i in range(14)] + [("somersault",)]
+    out = [("hyp", i) for i in range(12)] + [("layers", 0), ("layers", 1)] + [("somersault",)]
     if tier == "thorough":
         out += [("atheris", 0), ("atheris", 1)]
     return out
@@ -313,6 +435,18 @@ def run_shard(spec, seed, tier):
         return run_somersault(spec, seed, tier)
     if spec[0] == "atheris":
         return run_atheris(spec, seed, tier)
+    if spec[0] == "layers":
+        res = core.ShardResult()
+        kf = known.load(PROPERTY)
+
+        def lbody(case):
+            return eval_layer_case(case, res, kf)
+        n = 40 if tier == "quick" else 400
+        found = core.hyp_search(layer_case_strategy(), lbody, seed, n, shrink_budget_s=30)
+        if found:
+            res.failures.extend(found)
+        res.stages["layers"] = n
+        return res
     res = core.ShardResult()
     kf = known.load(PROPERTY)
     budget = 500 if tier == "quick" else 3000
